@@ -345,9 +345,10 @@ func (c *copier) copy(ctx context.Context, src, srcComponents, target string, ov
 		return errors.Wrapf(err, "failed to stat %s", src)
 	}
 	targetFi, err := os.Lstat(target)
-	if err != nil && !os.IsNotExist(err) && !errors.Is(err, syscall.ENOTDIR) {
-		// ENOTDIR: a parent of target is not a directory, so target does not exist either; if something
-		// below it really has to be written, creating its parent reports the conflict
+	if err != nil && !os.IsNotExist(err) && !errors.Is(err, syscall.ENOTDIR) && !errors.Is(err, syscall.ELOOP) {
+		// ENOTDIR, ELOOP: a parent of target is not a directory (or is a symlink that leads nowhere), so
+		// target does not exist either; if something below it really has to be written, creating its
+		// parent reports the conflict
 		return errors.Wrapf(err, "failed to stat %s", src)
 	}
 
